@@ -53,7 +53,7 @@ func genRpmData(t *rapid.T) c13Attach {
 	}
 	n := len(keys)
 	first := rapid.IntRange(0, n).Draw(t, "firstSpinning") // index of the first key with rpm > 0 (n: never spins)
-	top := rapid.IntRange(first, n).Draw(t, "plateauFrom")  // from here on the rpm is flat
+	top := rapid.IntRange(first, n).Draw(t, "plateauFrom") // from here on the rpm is flat
 	var out c13Attach
 	base := float64(rapid.IntRange(1, 3000).Draw(t, "baseRpm"))
 	for i, k := range keys {
